@@ -35,17 +35,17 @@ LatB1      == 0 -- Centre(NegB1)
 LatB2      == 0 -- Centre(NegB2)
 LatA1      == Centre(SNeg(SMul(LatB1 %% N, Lambda)))
 LatA2      == Centre(SNeg(SMul(LatB2 %% N, Lambda)))
-(* Upper bounds on the magnitudes of the halves, for EVERY k.  (k1, k2) = e1*(a1, b1) + e2*(a2, b2)   *)
-(* with |e_i| <= 1/2 + eps, eps = n * 2^-(T+1) the error of replacing b/n by g/2^T; when              *)
-(* n * (|a1| + |a2|) < 2^T the integer |k1| is therefore at most (|a1| + |a2|) div 2 (same for k2).   *)
-(* Checked against all k on the miniature curves (MC_Mul) and evaluated at full size                  *)
-(* (Trace_Point, event mul.Const name = "bound").                                                     *)
+(* Upper bounds on the magnitudes of the halves, for EVERY k in [0, n).                                 *)
+(* (k1, k2) = e1*(a1, b1) + e2*(a2, b2) with |e_i| <= 1/2 + eps, where eps = n / 2^(T+1) bounds the     *)
+(* error k*|g_i/2^T - b_i/n| of replacing b_i/n by g_i/2^T (g_i = round(2^T b_i / n)).  Hence the       *)
+(* integer |k1| is at most floor((1/2 + eps) * (|a1| + |a2|)) and likewise for k2.  The formula is       *)
+(* checked against ALL k on the miniature curves (MC_Mul) and evaluated at full size (Trace_Point,      *)
+(* event mul.Const name = "bound").                                                                     *)
 SumA       == AbsI(LatA1) ++ AbsI(LatA2)
 SumB       == AbsI(LatB1) ++ AbsI(LatB2)
-EpsSmall   == ((N ** SumA) \prec Pow2(T)) /\ ((N ** SumB) \prec Pow2(T))
-BoundK1    == SumA // 2
-BoundK2    == SumB // 2
-HalvesFit  == EpsSmall /\ (BoundK1 \prec Pow2(HBits)) /\ (BoundK2 \prec Pow2(HBits))
+BoundK1    == (SumA ** (Pow2(T) ++ N)) // Pow2(T + 1)
+BoundK2    == (SumB ** (Pow2(T) ++ N)) // Pow2(T + 1)
+HalvesFit  == (BoundK1 \prec Pow2(HBits)) /\ (BoundK2 \prec Pow2(HBits))
 
 (* ---------------- window ladder ---------------- *)
 
